@@ -167,6 +167,8 @@ def run_resolve(ctx):
                 break
             what = pb.split(": ", 1)[1] if ": " in pb else pb
             cls = "accepted" if "accepted, but" in pb else "rejected-valid" if "breaks no rule" in pb else "effects" if "effects" in pb and "rejected program" in pb else "panic" if "panic" in pb else "wrong-error"
+            if "legacy ExecFile" in pb:
+                cls += ":legacy-entry-point"
             ctx.finding("resolve:%s:%s:%s" % (p["plant"], p["where"] or "expr", cls),
                         "planted %s (%s) at %s; %s\n%s" % (p["plant"], p["where"] or "expression", p["marker"], pb, p["src"]), p)
             break
@@ -200,7 +202,7 @@ def resolve_finish(ctx, summary, terms, refs, bad_model, bad_spec):
     return {
         "evaluations": summary["runs"], "distinct_nontrivial": summary["runs"],
         "programs": summary["programs"], "option_vectors": summary["vectors"], "plants": summary["plants"],
-        "rule": "programs from a grammar (defs with all parameter kinds, nested defs, lambdas with defaults, comprehensions with several clauses, if/for/break/continue, calls with positional/named/*/** arguments, loads) valid under every option vector; in 7 of 8 programs one construct is planted (73 kinds: every rule of the resolver, at top level / in a function / in a loop / in an if / in a nested def / in a def inside a loop, or wrapped in random expression contexts), plus 7 context-sensitive constructs (load, break, continue, return, if, for, while) x 30 branch positions (if-true, elif, final else after one or two elifs, for body, while body, nestings of these, after a compound statement; at top level and in a function) with the exact expected error list, x option vectors (quick: all-off, all-on and 6 seeded; thorough: all 64). Each run goes through the real ExecFileOptions pipeline with logging built-ins and a logging loader.",
+        "rule": "programs from a grammar (defs with all parameter kinds, nested defs, lambdas with defaults, comprehensions with several clauses, if/for/break/continue, calls with positional/named/*/** arguments, loads) valid under every option vector; in 7 of 8 programs one construct is planted (73 kinds: every rule of the resolver, at top level / in a function / in a loop / in an if / in a nested def / in a def inside a loop, or wrapped in random expression contexts), plus 7 context-sensitive constructs (load, break, continue, return, if, for, while) x 30 branch positions (if-true, elif, final else after one or two elifs, for body, while body, nestings of these, after a compound statement; at top level and in a function) with the exact expected error list, x option vectors (quick: all-off, all-on and 6 seeded; thorough: all 64), and x all 16 combinations of the legacy flags resolve.AllowSet/AllowGlobalReassign/AllowRecursion/LoadBindsGlobally through the legacy entry point starlark.ExecFile, compared with the rules under the documented mapping of LegacyFileOptions. Each run goes through the real ExecFileOptions pipeline with logging built-ins and a logging loader.",
         "distribution": summary["dist"], "coq_programs": len(terms),
         "model_mismatches": len(bad_model), "spec_mismatches": len(bad_spec),
         "expectation_mismatches": summary["problem_programs"],
@@ -265,7 +267,7 @@ def run_rec(ctx):
             kind = "reentered" if c["obs"].startswith("ok") and not c["rec"] else "spurious-failure" if c["expect"].startswith("ok") else "wrong-function"
             edges = "closure-pair" if any(n.startswith("k0") for n in c["chain"]) else "plain"
             ctx.finding("recursion:%s:%s:%s:%s" % ("on" if c["rec"] else "off", c.get("entry", "file"), kind, edges),
-                        "call chain %s with Recursion=%s, entered from %s: %s\n%s" % (" -> ".join(c["chain"]), c["rec"], "the host (starlark.Call on an idle thread)" if c.get("entry") == "go" else "the module top level", c["problem"], c["src"]), c)
+                        "call chain %s with Recursion=%s, entered from %s: %s\n%s" % (" -> ".join(c["chain"]), c["rec"], "the host (starlark.Call on an idle thread)" if c.get("entry") == "go" else "the legacy entry point starlark.ExecFile with resolve.AllowRecursion set accordingly" if c.get("entry") == "legacy" else "the module top level", c["problem"], c["src"]), c)
         if c["obs"].startswith("other:"):
             continue
         evs = clist(["CallFn %d %d" % (e[1], e[2]) if e[0] == 0 else "CallBuiltin %d" % e[1] if e[0] == 1 else "Return" for e in c["events"]])
@@ -300,7 +302,7 @@ def rec_finish(ctx, summary, terms, refs, bad_model, bad_spec):
     return {"recursion_graphs": summary["graphs"], "recursion_runs": summary["runs"], "recursion_distribution": summary["dist"],
             "recursion_coq_runs": len(terms), "recursion_model_mismatches": len(bad_model),
             "recursion_spec_mismatches": len(bad_spec), "recursion_rule_mismatches": summary["problems"],
-            "recursion_rule": "call chains of length <= 6 over <= 4 callables drawn from 4 plain functions and two closures of one definition; each definition calls the next callable directly, through a lambda, or through the key callback of sorted/min/max (seeded per definition); one third of the chains are made acyclic; every chain is run twice in sequence, with Recursion off and on, entered both from the module's top level and by the host with starlark.Call on an idle thread (no <toplevel> frame below)"}
+            "recursion_rule": "call chains of length <= 6 over <= 4 callables drawn from 4 plain functions and two closures of one definition; each definition calls the next callable directly, through a lambda, or through the key callback of sorted/min/max (seeded per definition); one third of the chains are made acyclic; every chain is run twice in sequence, with Recursion off and on, entered both from the module's top level and by the host with starlark.Call on an idle thread (no <toplevel> frame below) and through starlark.ExecFile with resolve.AllowRecursion"}
 
 
 def run(ctx):
